@@ -117,12 +117,14 @@ namespace detail
 
 	GLM_FUNC_QUALIFIER glm::uint floatTo11bit(float x)
 	{
-		if(x == 0.0f)
-			return 0u;
-		else if(glm::isnan(x))
+		if(glm::isnan(x))
 			return ~0u;
+		else if(x < 6.103515625e-05f * 0.5f) // negative, zero or below the smallest code (2^-15): clamp to zero
+			return 0u;
 		else if(glm::isinf(x))
 			return 0x1Fu << 6u;
+		else if(x >= 65536.0f) // above the largest finite value: clamp to it
+			return (0x1Fu << 6u) - 1u;
 
 		uint Pack = 0u;
 		memcpy(&Pack, &x, sizeof(Pack));
@@ -133,10 +135,8 @@ namespace detail
 	{
 		if(x == 0)
 			return 0.0f;
-		else if(x == ((1 << 11) - 1))
-			return ~0;//NaN
-		else if(x == (0x1f << 6))
-			return ~0;//Inf
+		else if((x & (0x1f << 6)) == (0x1f << 6))
+			return (x & 0x3f) ? std::numeric_limits<float>::quiet_NaN() : std::numeric_limits<float>::infinity();
 
 		uint Result = packed11ToFloat(x);
 
@@ -147,12 +147,14 @@ namespace detail
 
 	GLM_FUNC_QUALIFIER glm::uint floatTo10bit(float x)
 	{
-		if(x == 0.0f)
-			return 0u;
-		else if(glm::isnan(x))
+		if(glm::isnan(x))
 			return ~0u;
+		else if(x < 6.103515625e-05f * 0.5f) // negative, zero or below the smallest code (2^-15): clamp to zero
+			return 0u;
 		else if(glm::isinf(x))
 			return 0x1Fu << 5u;
+		else if(x >= 65536.0f) // above the largest finite value: clamp to it
+			return (0x1Fu << 5u) - 1u;
 
 		uint Pack = 0;
 		memcpy(&Pack, &x, sizeof(Pack));
@@ -163,10 +165,8 @@ namespace detail
 	{
 		if(x == 0)
 			return 0.0f;
-		else if(x == ((1 << 10) - 1))
-			return ~0;//NaN
-		else if(x == (0x1f << 5))
-			return ~0;//Inf
+		else if((x & (0x1f << 5)) == (0x1f << 5))
+			return (x & 0x1f) ? std::numeric_limits<float>::quiet_NaN() : std::numeric_limits<float>::infinity();
 
 		uint Result = packed10ToFloat(x);
 
@@ -621,9 +621,9 @@ namespace detail
 	GLM_FUNC_QUALIFIER vec3 unpackF2x11_1x10(uint32 v)
 	{
 		return vec3(
-			detail::packed11bitToFloat(v >> 0),
-			detail::packed11bitToFloat(v >> 11),
-			detail::packed10bitToFloat(v >> 22));
+			detail::packed11bitToFloat((v >> 0) & ((1 << 11) - 1)),
+			detail::packed11bitToFloat((v >> 11) & ((1 << 11) - 1)),
+			detail::packed10bitToFloat((v >> 22) & ((1 << 10) - 1)));
 	}
 
 	GLM_FUNC_QUALIFIER uint32 packF3x9_E1x5(vec3 const& v)
